@@ -671,6 +671,13 @@ func genRoot(g *Gen, flavour int) rootDesc {
 			b.file("/srv/data/two words")
 			b.file("/srv/data/sub/three")
 			b.sym("/srv/data/lnk", "one")
+			if g.Chance(1, 2) {
+				// directories whose own names look like glob patterns: the recursive expansion of a
+				// `dir` wildcard line must take them literally
+				b.file("/srv/data/site[1]/inner")
+				b.file("/srv/data/odd[name/x y")
+				b.file("/srv/data/sub/q?/deep*er/f")
+			}
 			lines = append(lines, g.Pick("file /srv/data/*", "dir /srv/*", "dir /srv/data/*", "file /srv/data/o* mod=0444", "tbd /srv/data/t*"))
 		case 12: // wildcard source, flat and with a nested directory
 			ext.file("/many/f1")
